@@ -186,11 +186,11 @@ class FunctorPool:
             self.data = data
             self.chunk_size = chunk_size
             self.pool = pool
-
-        def run(self) -> None:
+            # must be set before the thread is started, because the consumer may test them before run() gets the cpu
             self.pool._sending_work = True
             self.pool._data_cnt = 0
 
+        def run(self) -> None:
             def chunking(d):
                 ch = []
                 for x in d:
